@@ -131,6 +131,50 @@ def check(prog, rep):
             f"a model field was already modified and before {inval_name}() ran: the edit is kept, the caches are stale",
             loc=f"{m.module.rel}:{bad_raise[0][1].lineno}" if bad_raise else m.loc, detail="exception-exit",
         )
+    # a mutator that refills a cache itself: the value must come from the cache's own producer.  Positive
+    # identification only -- the refill calls a function the producer of that cache never uses (a second analyser
+    # whose answers need not agree with the producer's on the current model); any other refill is left undecided.
+    BUILTIN_CALLS = {"all", "any", "bool", "len", "isinstance", "list", "tuple", "sum", "min", "max", "sorted", "set", "dict", "zip", "enumerate", "range", "int", "float"}
+
+    def callee_names(node):
+        out = set()
+        for c in ast.walk(node):
+            if isinstance(c, ast.Call):
+                d = dotted(c.func) or ""
+                out.add(d.split(".")[-1] if d else src(c.func)[:30])
+        return out - BUILTIN_CALLS
+
+    mutator_set = {m.qual for m, _d, _v in mutators} | {q for q, sm in summaries.items() if sm["writes"]}
+    for m, _ws, _via in mutators:
+        bodies = [m] + [P.methods[q.split(".")[-1]] for q, sm in summaries.items() if sm["writes"] and q.split(".")[-1] in P.methods and any(helper_of(c) is P.methods[q.split(".")[-1]] for c in ast.walk(m.node))]
+        for g in bodies:
+            for a, n in attr_writes(g.node, {"self"}):
+                if a not in cache_attrs or not isinstance(n, (ast.Assign, ast.AnnAssign)) or getattr(n, "value", None) is None:
+                    continue
+                v = n.value
+                if isinstance(v, ast.Constant) and v.value is None:
+                    continue
+                if isinstance(v, (ast.Dict, ast.List, ast.Tuple, ast.Set)) and not (v.keys if isinstance(v, ast.Dict) else v.elts):
+                    continue
+                prods = [f for f, _n in assigned_outside.get(a, []) if f.qual not in mutator_set]
+                known = set()
+                for f in prods:
+                    known |= callee_names(f.node) | {f.name}
+                # a value held in a local is followed one step
+                asg = local_assignments(g.node)
+                used = callee_names(v)
+                if isinstance(v, ast.Name):
+                    for val in asg.get(v.id, []):
+                        used |= callee_names(val)
+                foreign = sorted(used - known)
+                where = f"{m.qual.split(':')[1]}" + ("" if g is m else f" via {g.name}()")
+                if foreign and prods:
+                    rep.ob("R13.1", m.qual.split(":")[1], False,
+                           f"{where} refills the cache Problem.{a} itself (`{src(n)[:90]}`) using {', '.join(foreign)}(), which the cache's producer "
+                           f"({', '.join(f.name for f in prods)}) never calls: after this edit the cached value is decided by a different routine than on a fresh problem",
+                           loc=f"{g.module.rel}:{n.lineno}", detail=f"cache-refilled-by-foreign-routine:{a}", robust=True)
+                else:
+                    rep.undecided(f"{where} assigns the cache Problem.{a} a non-empty value (`{src(n)[:60]}`) inside a mutator; not interpretable as an invalidation ({g.module.rel}:{n.lineno})")
     if inval is None:
         rep.ob("R13.2", "Problem", False, "Problem has cache attributes but no invalidation method", loc=P.loc, detail="no-invalidator")
 
